@@ -185,7 +185,25 @@ def _orch(p: Dict[str, Any], stats: Dict[str, int]) -> List[Dict[str, Any]]:
 
             def t2w(ctx, state, text, t1):
                 spend("T2")
-                return real_t2(ctx, state, text, t1)
+                res = real_t2(ctx, state, text, t1)
+                # the retrieval budget clamps the WORK done with the hits, not only the counter: residual graph nudges may come
+                # from the first t2_k ranked hits only
+                kcap = (getattr(ctx, "slice_budgets", None) or {}).get("t2_k")
+                if kcap is not None and not int((res.metrics or {}).get("cache_hits", 0) or 0):
+                    used = list(res.retrieved)[: max(0, int(kcap))]
+                    texts_low = [(getattr(x, "text", "") or "").lower() for x in used]
+                    labels = {}
+                    for gid in state.get("active_graphs", []):
+                        for nid, nd in state["store"].get_graph(gid).nodes.items():
+                            labels.setdefault(nid, []).append((nd.label or "").lower())
+                    for d in res.graph_deltas_residual or []:
+                        nid = d.get("id")
+                        if nid in labels and not any(lb and any(lb in t for t in texts_low) for lb in labels[nid]):
+                            bad("t2-residual-from-hits-beyond-budget", "t2_k=%s: residual nudge of node %s (labels %s) although the %d used hits read %s; all hits %s" % (
+                                kcap, nid, labels[nid], len(used), texts_low[:3], [(getattr(x, "text", "") or "")[:30] for x in res.retrieved][:6]))
+                    if len(res.retrieved) > len(used):
+                        stats["t2_binding_budget_calls"] = stats.get("t2_binding_budget_calls", 0) + 1
+                return res
 
             def t3w(ctx, state, bundle):
                 spend("T3")
